@@ -152,6 +152,12 @@ impl<T: Ord> BTreeSet<T> {
     pub fn iter(&self) -> std::slice::Iter<'_, T> {
         self.items.iter()
     }
+
+    /// Verification harnesses only: adopt a vector that is already sorted and duplicate-free
+    /// (lets a harness build a set of symbolic elements without shifting insertions).
+    pub fn from_sorted_vec(items: Vec<T>) -> Self {
+        Self { items }
+    }
 }
 
 #[macro_export]
